@@ -95,11 +95,19 @@ Definition index_ok (exact : bool) (td : tdata) (ops : list (list row)) (oi : ob
       && nodup_locs (map snd es) && sorted_entries (nsort d) es
   end.
 
+(* Keyed tables: sortRows spreads the rows over the partitions in primary key order, so with ONE partition every row
+   sits at a deterministic place and locations are compared exactly.  With several partitions the partition SIZES
+   depend on edits the driver cannot see in the before/after difference (a REPLACE / ON DUPLICATE KEY UPDATE that
+   rewrites an identical row removes it where sortRows had put it and re-appends it to its hash partition), so the
+   flattened primary-key order and the dereferenced storage (key + target row) are compared instead.  Keyless
+   tables never move rows: per-partition bags. *)
 Definition state_ok (td : tdata) (o : obs_state) : bool :=
   let '(ops, ois) := o in
-  let exact := match pkcols td with [] => false | _ => true end in
-  parts_eqb exact (parts td) ops
-  && (if exact then sorted_rows (pkcols td) (concat ops) else true)
+  let keyed := match pkcols td with [] => false | _ => true end in
+  let exact := keyed && Nat.eqb (length (parts td)) 1 in
+  (if keyed && negb exact then rows_eqb (concat (parts td)) (concat ops) && Nat.eqb (length (parts td)) (length ops)
+   else parts_eqb exact (parts td) ops)
+  && (if keyed then sorted_rows (pkcols td) (concat ops) else true)
   && Nat.eqb (length (defs td)) (length ois)
   && forallb (index_ok exact td ops) ois.
 
